@@ -9,7 +9,9 @@ def gen_cases(seed, tier):
     rng = random.Random(seed)
     cases = []
     comps = ["none", "zstd:5", "lz4:3", "lzma:2"]
-    for comp in comps:                       # corpus: each hint alone, each algorithm, low and high entropy
+    # every level the public types accept is a compressing level, 0 and the extremes included
+    levels = ["zstd:0", "lz4:0", "lzma:0", "zstd:-7", "zstd:19", "lz4:15", "lzma:9", "zstd:1", "lz4:1", "lzma:1"]
+    for comp in comps + levels:              # corpus: each hint alone, each algorithm, low and high entropy
         for h in "ynd":
             for kind in "tr":
                 cases.append(dict(id="h%d" % len(cases), comp=comp, dedup=0,
@@ -22,7 +24,7 @@ def gen_cases(seed, tier):
                                ("y", "mem", B), ("n", "mem", BIG), ("y", "file", BIG), ("d", "mem", B)]))
     n = 50 if tier == "quick" else 500
     for i in range(n):
-        comp = comps[i % 4]
+        comp = comps[i % 4] if i % 5 else rng.choice(levels)
         k = rng.choice([2, 3, 8, 30])
         ops = K.gen_ops(rng, k, [0, 1, 100, 300, 5000, 70000], srcs=("mem", "mem", "file"))
         cases.append(dict(id="h%d" % len(cases), comp=comp, dedup=int(i % 3 == 0), ops=ops))
